@@ -39,6 +39,11 @@ def Router.heco (period : Nat) : Router := ⟨false, true, some period, false, s
 def Router.hsc (period : Nat) : Router := ⟨false, true, some period, false, none, false⟩
 def Router.pixie (period : Nat) : Router := ⟨false, false, some period, false, some 1024, true⟩
 
+/-- the 8-byte nonce as far as the clique-style router reads it: 00..00 (drop vote), ff..ff (authorize vote), anything else -/
+inductive Nonce where
+  | drop | auth | other
+  deriving DecidableEq, Repr
+
 structure Hdr where
   id : Id
   parent : Id
@@ -54,6 +59,8 @@ structure Hdr where
   mixZero : Bool
   uncleOk : Bool
   baseFee : Option Nat
+  /-- read by the msc router only -/
+  nonce : Nonce := .drop
 
 def extraVanity : Nat := 32
 def extraSeal : Nat := 65
@@ -108,6 +115,8 @@ inductive Rej where
   | time | basefee | block0 | seal | epoch | recent | turn | signer
   | nogenesis | getHeader | parse | fuel | nocanon
   | genesisStored | prevValidators | heightOrder | genesisSigners
+  -- msc
+  | cpBeneficiary | nonce | cpNonce | extraSigners | cpSignerlist | cpMismatch | extraInfo | genesisHeight
   deriving DecidableEq, Repr
 
 inductive Out where
@@ -356,6 +365,264 @@ def apply (R : Router) (st : St) : Op → St × Out
 def run (R : Router) (st : St) : List Op → St
   | [] => st
   | o :: os => run R (apply R st o).1 os
+
+/-! ## msc: clique-style router (`native/service/header_sync/msc/{header_sync,snapshot}.go`)
+
+A different algorithm over the same stores: the signer set is the list of the last checkpoint header (number divisible by
+`Epoch`) modified by majority votes (coinbase = target, nonce = authorize / drop) of the headers since; the code walks back
+over `LastVoteParentOrEpoch` links (stored in the field `epochParent` here), which skip headers that carry no vote. -/
+namespace Msc
+
+structure Cfg where
+  epoch : Nat
+  period : Nat
+
+structure Vote where
+  signer : Addr
+  block : Nat
+  address : Addr
+  authorize : Bool
+
+structure Snap where
+  /-- ascending (bytes.Compare), no duplicates: what `signers()` returns for the Go map -/
+  signers : List Addr
+  votes : List Vote
+  tally : List (Addr × Bool × Nat)
+
+def zeroAddr : Addr := List.replicate 20 0
+
+/-- `bytes.Compare(a, b) < 0` -/
+def addrLt : List UInt8 → List UInt8 → Bool
+  | [], [] => false
+  | [], _ :: _ => true
+  | _ :: _, [] => false
+  | x :: xs, y :: ys => if x < y then true else if y < x then false else addrLt xs ys
+
+def insertSigner (a : Addr) : List Addr → List Addr
+  | [] => [a]
+  | b :: bs => if a == b then b :: bs else if addrLt a b then a :: b :: bs else b :: insertSigner a bs
+
+def tallyOf (t : List (Addr × Bool × Nat)) (a : Addr) : Option (Bool × Nat) :=
+  (t.find? (fun e => e.1 == a)).map (·.2)
+
+def tallySet (t : List (Addr × Bool × Nat)) (a : Addr) (v : Option (Bool × Nat)) : List (Addr × Bool × Nat) :=
+  let t' := t.filter (fun e => !(e.1 == a))
+  match v with
+  | some x => (a, x) :: t'
+  | none => t'
+
+/-- `cast`: returns the new tally and whether the vote counts -/
+def cast (s : Snap) (address : Addr) (authorize : Bool) : Snap × Bool :=
+  let isSigner := s.signers.contains address
+  if !((isSigner && !authorize) || (!isSigner && authorize)) then (s, false)
+  else match tallyOf s.tally address with
+    | some (au, n) => ({ s with tally := tallySet s.tally address (some (au, n + 1)) }, true)
+    | none => ({ s with tally := tallySet s.tally address (some (authorize, 1)) }, true)
+
+def uncast (s : Snap) (address : Addr) (authorize : Bool) : Snap :=
+  match tallyOf s.tally address with
+  | none => s
+  | some (au, n) =>
+    if au != authorize then s
+    else if n > 1 then { s with tally := tallySet s.tally address (some (au, n - 1)) }
+    else { s with tally := tallySet s.tally address none }
+
+/-- remove the first vote of `signer` on `address`, uncasting it -/
+def dropFirstVote (s : Snap) (signer address : Addr) : Snap :=
+  match s.votes.find? (fun v => v.signer == signer && v.address == address) with
+  | none => s
+  | some v =>
+    let s1 := uncast s v.address v.authorize
+    { s1 with votes := s1.votes.eraseP (fun v => v.signer == signer && v.address == address) }
+
+/-- uncast and remove every vote cast by `who` -/
+def dropVotesBy (s : Snap) (who : Addr) : Snap :=
+  let mine := s.votes.filter (fun v => v.signer == who)
+  let s1 := mine.foldl (fun acc v => uncast acc v.address v.authorize) s
+  { s1 with votes := s1.votes.filter (fun v => !(v.signer == who)) }
+
+/-- one iteration of `Snapshot.apply`; returns the snapshot and whether the header was signed by `target` -/
+def applyOne (s : Snap) (h : Hdr) : Except Rej Snap :=
+  match h.signer with
+  | none => .error .seal
+  | some signer =>
+    if !s.signers.contains signer then .error .signer
+    else
+      let s1 := dropFirstVote s signer h.coinbase
+      match (match h.nonce with | .auth => some true | .drop => some false | .other => none) with
+      | none => .error .nonce
+      | some authorize =>
+        let (s2, counted) := cast s1 h.coinbase authorize
+        let s3 := if counted then { s2 with votes := s2.votes ++ [⟨signer, h.number, h.coinbase, authorize⟩] } else s2
+        match tallyOf s3.tally h.coinbase with
+        | some (au, n) =>
+          if n > s3.signers.length / 2 then
+            let s4 :=
+              if au then { s3 with signers := insertSigner h.coinbase s3.signers }
+              else dropVotesBy { s3 with signers := s3.signers.filter (fun a => !(a == h.coinbase)) } h.coinbase
+            .ok { s4 with votes := s4.votes.filter (fun v => !(v.address == h.coinbase)),
+                          tally := tallySet s4.tally h.coinbase none }
+          else .ok s3
+        | none => .ok s3
+
+/-- `apply`: headers oldest first; `lastSeen` is updated before the authorization test, as in the code -/
+def applyAll (target : Addr) : Snap → Option Nat → List Hdr → Except Rej (Snap × Option Nat)
+  | s, ls, [] => .ok (s, ls)
+  | s, ls, h :: hs =>
+    let ls' := if h.signer == some target then some h.number else ls
+    match applyOne s h with
+    | .error e => .error e
+    | .ok s' => applyAll target s' ls' hs
+
+/-- the walk back over `LastVoteParentOrEpoch` links collecting the vote headers (newest first) down to the checkpoint -/
+def collect (hdrs : Id → Option Stored) : Nat → Id → List Hdr → Except Rej (Stored × List Hdr)
+  | 0, _, _ => .error .fuel
+  | fuel + 1, hash, acc =>
+    match hdrs hash with
+    | none => .error .getHeader
+    | some s =>
+      match s.epochParent with
+      | none => .ok (s, acc)
+      | some next => collect hdrs fuel next (if s.hdr.coinbase != zeroAddr then acc ++ [s.hdr] else acc)
+
+/-- the search over the most recent headers -/
+def recentSearch (hdrs : Id → Option Stored) (gnum : Nat) (target : Addr) :
+    Nat → Nat → Id → Option Nat → Except Rej (Option Nat)
+  | 0, _, _, ls => .ok ls
+  | n + 1, number, hash, ls =>
+    match hdrs hash with
+    | none => .error .getHeader
+    | some s =>
+      if s.hdr.number != number then .error .fuel
+      else match s.hdr.signer with
+        | none => .error .seal
+        | some signer =>
+          if signer == target then .ok (some s.hdr.number)
+          else if number ≤ gnum then .ok ls
+          else recentSearch hdrs gnum target n (number - 1) s.hdr.parent ls
+
+inductive SnapOut where
+  | ok (s : Snap) (lastSeen : Option Nat)
+  | err (e : Rej)
+  | panic
+
+/-- second half of `snapshot`: apply the collected vote headers (oldest first), then search the most recent headers -/
+def snapshotTail (st : St) (g : Genesis) (number : Nat) (hash : Id) (target : Addr) (snap0 : Snap) (ls0 : Option Nat)
+    (hs : List Hdr) : SnapOut :=
+  match applyAll target snap0 ls0 hs with
+  | .error e => .err e
+  | .ok (snap, ls1) =>
+    match recentSearch st.hdrs g.hdr.number target (snap.signers.length / 2) number hash ls1 with
+    | .error e => .err e
+    | .ok ls2 => .ok snap ls2
+
+/-- `snapshot(number, hash, targetSigner)`; `lastSeen = none` stands for the initial 0 -/
+def snapshot (st : St) (g : Genesis) (number : Nat) (hash : Id) (target : Addr) : SnapOut :=
+  if number < g.hdr.number then .err .ancestor
+  else match collect st.hdrs (number + 2) hash [] with
+    | .error e => .err e
+    | .ok (cp, newestFirst) =>
+      if cp.hdr.extra.length < extraVanity + extraSeal then .panic   -- make([]Address, negative)
+      else match cp.hdr.signer with
+        | none => .err .seal
+        | some cpSigner =>
+          snapshotTail st g number hash target ⟨cp.hdr.vals.foldl (fun acc a => insertSigner a acc) [], [], []⟩
+            (if cpSigner == target then some cp.hdr.number else none) newestFirst.reverse
+
+def indexOf (a : Addr) : List Addr → Nat
+  | [] => 0
+  | b :: bs => if b == a then 0 else indexOf a bs + 1
+
+/-- `lastSeenHeight > 0 && number < lastSeenHeight + limit` -/
+def recentBad (lastSeen : Option Nat) (number limit : Nat) : Bool :=
+  match lastSeen with
+  | some l => decide (l > 0) && decide (number < l + limit)
+  | none => false
+
+def verifyHeader (C : Cfg) (st : St) (g : Genesis) (p : Stored) (h : Hdr) : Except Rej Snap ⊕ Unit :=
+  let checkpoint := h.number % C.epoch == 0
+  if checkpoint && h.coinbase != zeroAddr then .inl (.error .cpBeneficiary)
+  else if h.nonce == .other then .inl (.error .nonce)
+  else if checkpoint && h.nonce != .drop then .inl (.error .cpNonce)
+  else if h.extra.length < extraVanity then .inl (.error .vanity)
+  else if h.extra.length < extraVanity + extraSeal then .inl (.error .sealmissing)
+  else if !checkpoint && h.extra.length != extraVanity + extraSeal then .inl (.error .extraSigners)
+  else if checkpoint && (h.extra.length == extraVanity + extraSeal || (h.extra.length - extraVanity - extraSeal) % addrLen != 0) then
+    .inl (.error .cpSignerlist)
+  else if !h.mixZero then .inl (.error .mix)
+  else if !h.uncleOk then .inl (.error .uncle)
+  else if h.difficulty != diffInTurn && h.difficulty != diffNoTurn then .inl (.error .difficulty)
+  else if p.hdr.number + 1 != h.number then .inl (.error .ancestor)
+  else if p.hdr.time + C.period > h.time then .inl (.error .time)
+  else if h.number = 0 then .inl (.error .block0)
+  else match h.signer with
+    | none => .inl (.error .seal)
+    | some signer =>
+      match snapshot st g (h.number - 1) h.parent signer with
+      | .panic => .inr ()
+      | .err e => .inl (.error e)
+      | .ok snap lastSeen =>
+        if !snap.signers.contains signer then .inl (.error .signer)
+        else if checkpoint && h.valBytes != snap.signers.flatten then .inl (.error .cpMismatch)
+        else if recentBad lastSeen h.number (snap.signers.length / 2 + 1) then .inl (.error .recent)
+        else
+          let inturn := h.number % snap.signers.length == indexOf signer snap.signers
+          if inturn && h.difficulty != diffInTurn then .inl (.error .turn)
+          else if !inturn && h.difficulty != diffNoTurn then .inl (.error .turn)
+          else .inl (.ok snap)
+
+/-- `LastVoteParentOrEpoch` of a new header -/
+def lastVoteLink (C : Cfg) (p : Stored) (h : Hdr) : Option Id :=
+  if h.number % C.epoch != 0 then
+    if p.hdr.number % C.epoch == 0 then some p.hdr.id
+    else if p.hdr.coinbase != zeroAddr then some p.hdr.id
+    else p.epochParent
+  else none
+
+def syncHeader (C : Cfg) (st : St) (h : Hdr) : St × Out :=
+  if (st.hdrs h.id).isSome then (st, .skipDup)
+  else match st.hdrs h.parent with
+    | none => (st, .skipNoParent)
+    | some p =>
+      match st.genesis with
+      | none => (st, .reject .nogenesis)
+      | some g =>
+        match verifyHeader C st g p h with
+        | .inr () => (st, .panic)
+        | .inl (.error e) => (st, .reject e)
+        | .inl (.ok _) =>
+          match addHeader st h p ⟨0, [], lastVoteLink C p h⟩ with
+          | .error e => (st, .reject e)
+          | .ok st' => (st', .ok)
+
+def syncGenesis (C : Cfg) (st : St) (g : Hdr) : St × Out :=
+  if C.epoch = 0 ∨ C.period = 0 then (st, .reject .extraInfo)
+  else if st.genesis.isSome then (st, .reject .genesisStored)
+  else if g.number % C.epoch != 0 then (st, .reject .genesisHeight)
+  else
+    let len := g.extra.length
+    if len = extraVanity + extraSeal then (st, .reject .genesisSigners)
+    else if len > extraVanity + extraSeal ∧ (len - (extraVanity + extraSeal)) % addrLen != 0 then (st, .reject .genesisSigners)
+    else if len < extraVanity + extraSeal ∧ ((extraVanity + extraSeal) - len) % addrLen != 0 then (st, .reject .genesisSigners)
+    else
+      ({ genesis := some ⟨g, ⟨0, [], none⟩, ⟨0, [], none⟩⟩
+         hdrs := upd st.hdrs g.id (some ⟨g, g.difficulty, none⟩)
+         canon := upd st.canon g.number (some g.id)
+         height := g.number }, .ok)
+
+inductive Op where
+  | genesis (g : Hdr)
+  | hdr (h : Hdr)
+
+def apply (C : Cfg) (st : St) : Op → St × Out
+  | .genesis g => syncGenesis C st g
+  | .hdr h => syncHeader C st h
+
+def run (C : Cfg) (st : St) : List Op → St
+  | [] => st
+  | o :: os => run C (apply C st o).1 os
+
+end Msc
 
 /-! ## Vocabulary of the property statements (C29)
 
